@@ -64,6 +64,18 @@ func vStart(u Upstream, wire []byte, timeout time.Duration) *vCall {
 		xerr = err
 		nilnil = m == nil && err == nil
 		if m != nil {
+			// the message now belongs to this caller: the free list must not hold it as well
+			var probes []*dnsmsg.Msg
+			for i := 0; i < 4; i++ {
+				if p := dnsmsg.NewMsg(); p == m {
+					env.OwnNote("ExchangeContext returned a message that is at the same time in the free list of released messages (NewMsg handed the very same object to a second owner)")
+				} else {
+					probes = append(probes, p)
+				}
+			}
+			for _, p := range probes {
+				dnsmsg.ReleaseMsg(p)
+			}
 			b := make([]byte, m.Len())
 			if n, perr := m.Pack(b, false, 0); perr == nil {
 				res, _ = refdns.Decode(b[:n])
